@@ -238,6 +238,9 @@ cdef class cyVariables:
                 if old == new:
                     continue
 
+                if not self.count(old):
+                    continue  # not a variable, nothing to relabel
+
                 idx = self._label_to_index.pop(old, old)
 
                 if new != idx:
